@@ -9,6 +9,7 @@ import KikiVerif.Proofs.Table
 import KikiVerif.Proofs.Generator
 import KikiVerif.Proofs.Encode
 import KikiVerif.Proofs.FirstSound
+import KikiVerif.Proofs.LalrConflict
 
 namespace KikiVerif.C11
 open KikiVerif.Table KikiVerif.Machine KikiVerif.LR
@@ -55,8 +56,26 @@ theorem C11_attached_automaton (vf : VFile.File) (enc : Encode.Enc) (m : Machine
   exact ⟨conflict_genuine _ _ s e n hc, fm, hfm, (firstSets_closed hfm).1, firstSets_sound hfm, items_exact mok,
     mok.distinct⟩
 
+/-- **C11 in the textbook's terms, every validated file**: the two items of a conflict report are an LALR(1)
+conflict *of the grammar* (no reference to how the automaton was built): each lies, lookahead included, in a state
+of the canonical LR(1) collection whose cores are those of the reported state (so both canonical states are merged
+into it), and the two items want different parser actions (`Machine.want`: shift on the terminal right of the dot /
+reduce by the item's rule on the item's lookahead / accept on end of input) on one lookahead column -/
+theorem C11_conflict_is_lalr1 (vf : VFile.File) (enc : Encode.Enc) (m : Machine) (fuel : Nat)
+    (he : Encode.encode vf = some enc) (hm : machineOf enc.ctx fuel = some (some m))
+    (s : Nat) (e n : Item) (hc : machineToTable enc.ctx m = .conflict s e n) :
+    ∃ fm, firstSets enc.ctx fuel = some (some fm) ∧
+      ∃ (I1 I2 : Item → Prop) (col : Nat) (w1 w2 : Want),
+        CanonState enc.ctx fm I1 ∧ CanonState enc.ctx fm I2 ∧ SameCoresPS I1 (m.states.getD s []) ∧
+        SameCoresPS I2 (m.states.getD s []) ∧ I1 e ∧ I2 n ∧
+        want enc.ctx e = some (col, w1) ∧ want enc.ctx n = some (col, w2) ∧ w1 ≠ w2 := by
+  have ok := Encode.encode_ok he
+  obtain ⟨fm, hfm, mok⟩ := machineOf_ok ok.terms hm
+  exact ⟨fm, hfm, genuine_lalr ok (firstSets_closed hfm).2.1 mok (conflict_genuine _ _ s e n hc)⟩
+
 end KikiVerif.C11
 
 #print axioms KikiVerif.C11.C11_setAction_conflict
 #print axioms KikiVerif.C11.C11_payload
 #print axioms KikiVerif.C11.C11_attached_automaton
+#print axioms KikiVerif.C11.C11_conflict_is_lalr1
